@@ -730,6 +730,16 @@ def do_op(actor, op, instances):
                           raise ConsumerDied()
                       n += 1
               out = {"k": "value", "v": n}
+          elif kind == "resolve_bulk":
+              okc = 0
+              for j in range(op["n"]):
+                  try:
+                      r.resolve("http://sim.test/bulk/%d.json#/definitions/n0" % j)
+                      okc += 1
+                  except Exception:
+                      pass
+              out = {"k": "value", "v": okc}
+              actor.probe("many_remote_documents_resolved")
           elif kind == "check_schema":
               actor.cls.check_schema(actor.root)
               out = {"k": "none"}
